@@ -8,7 +8,23 @@ Open Scope Z_scope.
 (* ================================================================== 1. generator and backend agree on the protocol *)
 
 Lemma byref_agrees : forall t, arg_by_reference t = backend_deref t.
-Proof. intros []; reflexivity. Qed.
+Proof.
+  intros []; try reflexivity.
+  unfold arg_by_reference, backend_deref, may_need_128_bits, gic_deref_longdouble, gic_deref_other.
+  cbn [isinstance_StructOrUnion isinstance_PrimitiveType tp_name_is orb andb]. rewrite orb_false_r. reflexivity.
+Qed.
+
+(* the regenerated flag set of the dereference test, spelled out per type *)
+Lemma backend_deref_table : forall t,
+  backend_deref t = match t with
+                    | XPrim n _ => name_eqb n LONG_DOUBLE
+                    | XStruct _ | XUnion _ => true
+                    | _ => false
+                    end.
+Proof.
+  intros []; try reflexivity.
+  unfold backend_deref, gic_deref_longdouble, gic_deref_other. cbn [andb]. apply orb_false_r.
+Qed.
 
 Lemma slot_agrees : forall i, slot_offset i = backend_slot i.
 Proof. reflexivity. Qed.
@@ -35,7 +51,7 @@ Proof. intros. cbn. apply name_eqb_eq. Qed.
 
 Lemma store_bytes_le8 : forall t, wf_xtype t -> is_double_complex t = false -> 0 <= store_bytes t <= 8.
 Proof.
-  intros t W NC. unfold store_bytes. rewrite byref_agrees.
+  intros t W NC. unfold store_bytes. rewrite byref_agrees, backend_deref_table.
   destruct t as [| n s | s | s | | s]; cbn in *; try lia.
   destruct (name_eqb n LONG_DOUBLE) eqn:E1; [lia |].
   destruct W as (W1 & W2 & W3).
@@ -218,14 +234,14 @@ Theorem no_exception_escapes : forall encode k eb b oe buf0,
   pending (invoke encode k eb b oe buf0) = false.
 Proof.
   intros. unfold invoke.
-  destruct (match b with BReturns x => fficallback encode k x | BRaises => None end); [reflexivity |].
+  destruct (match b with BReturns x => fficallback encode k x | BRaises | BArgFail => None end); [reflexivity |].
   destruct oe; destruct (Nat.ltb 0 (rsize k)); cbn; try reflexivity;
     destruct (fficallback_full encode k x); reflexivity.
 Qed.
 
 (* what the C caller gets, as a table over (body outcome, error=, onerror outcome) *)
 Definition body_value (encode : bool) (k : rkind) (b : body) : option (list Z) :=
-  match b with BReturns x => fficallback encode k x | BRaises => None end.
+  match b with BReturns x => fficallback encode k x | BRaises | BArgFail => None end.
 
 Theorem protocol_table : forall encode k eb b oe buf0,
   let s := invoke encode k eb b oe buf0 in
@@ -248,7 +264,7 @@ Theorem protocol_table : forall encode k eb b oe buf0,
   end.
 Proof.
   intros. subst s errbuf. unfold invoke, body_value.
-  destruct (match b with BReturns x => fficallback encode k x | BRaises => None end); [split; reflexivity |].
+  destruct (match b with BReturns x => fficallback encode k x | BRaises | BArgFail => None end); [split; reflexivity |].
   destruct oe; destruct (Nat.ltb 0 (rsize k)); cbn; try (split; reflexivity);
     destruct (fficallback_full encode k x); split; reflexivity.
 Qed.
